@@ -2,7 +2,7 @@
    with vm_compute (each takes several seconds; compiled once by make, not part of the re-checked
    Properties.v). *)
 From Common Require Import Bytes.
-From C29 Require Import ModelField ModelEd25519 ModelSecp256k1.
+From C29 Require Import Model ModelField ModelEd25519 ModelSecp256k1 ModelHost.
 Local Open Scope Z_scope.
 
 Definition hx (k : nat) (v : N) : list byte := be_bytes k v.
@@ -23,15 +23,15 @@ Definition rfc3_sig := hx 64 0x6291d657deec24024827e69c3abe01a30ce548a284743a445
 Example rfc8032_test3 : verify_both rfc3_pk [n2b 0xaf; n2b 0x82] rfc3_sig = (true, true).
 Proof. vm_compute. reflexivity. Qed.
 
-(* ---- ZIP-215 small-order vector: A = 00..00 (the point (sqrt(-1), 0) of order 4),
+(* ---- ZIP-215 small-order vector (a second one; Witness.v has the neutral-element one): A = 00..00 (the point (sqrt(-1), 0) of order 4),
    R = 00..00, S = 0, message "Zcash": valid under ZIP-215, rejected by the cofactorless
    byte-comparing check of Go's crypto/ed25519 *)
-Definition zcash : list byte := map n2b [90; 99; 97; 115; 104]%N.
-Definition zip_pk : list byte := zeros 32.
-Definition zip_sig : list byte := zeros 64.
-Example zip215_small_order_vector :
-  verify_zip215 zip_pk zcash zip_sig = true /\ verify_go zip_pk zcash zip_sig = false
-  /\ zip215_guard zip_pk zip_sig = true.
+Definition zcash_v : list byte := map n2b [90; 99; 97; 115; 104]%N.
+Definition zip_pk_v : list byte := zeros 32.
+Definition zip_sig_v : list byte := zeros 64.
+Example zip215_small_order_vector_order4 :
+  verify_zip215 zip_pk_v zcash_v zip_sig_v = true /\ verify_go zip_pk_v zcash_v zip_sig_v = false
+  /\ zip215_guard zip_pk_v zip_sig_v = true.
 Proof. vm_compute. repeat split; reflexivity. Qed.
 
 (* non-canonical encodings are accepted by the decoder: y = p + 1 (= 1, the neutral element) and
@@ -83,4 +83,42 @@ Proof. vm_compute. repeat split; reflexivity. Qed.
 (* the generator has order n *)
 Example secp_generator_order :
   j_is_inf (j_smul secp_n secp_G) = true /\ j_is_inf (j_smul (secp_n - 1) secp_G) = false.
+Proof. vm_compute. split; reflexivity. Qed.
+
+(* ---- host functions: key 028490e0.., message 929dc55c, signature by libsecp256k1 over
+   blake2_256(message) with recovery id 0 *)
+Definition w_pk := hx 33 0x028490e0f742ac82511266048c874b9b77d1e059f54100741ca56829f1c672cdab.
+Definition w_msg := hx 4 0x929dc55c.
+Definition w_r := hx 32 0x563c4af23b30f92d27ce9121119e1b09e6d3bf547cda6c22b12f4ea92e0b2479.
+Definition w_s := hx 32 0x137f0916974af73a530a3f1e25f991e8a826c9a58114601a50abccf1add0c539.
+Definition w_high_s := hx 32 0xec80f6e968b508c5acf5c0e1da066e16128813412e3440216f26919b22657c08.
+(* the honest signature: both accept *)
+Example host_ecdsa_honest :
+  host_ecdsa_verify w_pk w_msg (w_r ++ w_s ++ [n2b 0]) = true
+  /\ substrate_ecdsa_verify w_pk w_msg (w_r ++ w_s ++ [n2b 0]) = true.
+Proof. vm_compute. split; reflexivity. Qed.
+(* wrong recovery id: Substrate rejects, gossamer accepts *)
+Example host_ecdsa_wrong_id :
+  host_ecdsa_verify w_pk w_msg (w_r ++ w_s ++ [n2b 1]) = true
+  /\ substrate_ecdsa_verify w_pk w_msg (w_r ++ w_s ++ [n2b 1]) = false
+  /\ host_ecdsa_guard w_pk w_msg (w_r ++ w_s ++ [n2b 1]) = true.
+Proof. vm_compute. repeat split; reflexivity. Qed.
+(* high-S twin with the matching id: Substrate accepts, gossamer rejects *)
+Example host_ecdsa_high_s :
+  host_ecdsa_verify w_pk w_msg (w_r ++ w_high_s ++ [n2b 1]) = false
+  /\ substrate_ecdsa_verify w_pk w_msg (w_r ++ w_high_s ++ [n2b 1]) = true
+  /\ host_ecdsa_guard w_pk w_msg (w_r ++ w_high_s ++ [n2b 1]) = true.
+Proof. vm_compute. repeat split; reflexivity. Qed.
+
+(* ---- the simultaneous scalar multiplication agrees with the sum of two plain ones (compared
+   through the canonical encoding) on sample scalars *)
+Example double_smul_sample :
+  pt_encode (double_smul 5 ed_B 7 ed_B) = pt_encode (smul 12 ed_B)
+  /\ pt_encode (double_smul (ed_L - 3) ed_B 123456789123456789 (pt_neg ed_B))
+     = pt_encode (pt_add (smul (ed_L - 3) ed_B) (smul 123456789123456789 (pt_neg ed_B))).
+Proof. vm_compute. split; reflexivity. Qed.
+Example j_double_smul_sample :
+  j_affine (j_double_smul 5 secp_G 7 secp_G) = j_affine (j_smul 12 secp_G)
+  /\ j_affine (j_double_smul (secp_n - 3) secp_G 987654321987654321 (j_neg secp_G))
+     = j_affine (j_add (j_smul (secp_n - 3) secp_G) (j_smul 987654321987654321 (j_neg secp_G))).
 Proof. vm_compute. split; reflexivity. Qed.
